@@ -194,7 +194,7 @@ func indent(s string) string {
 }
 
 func (g *pgen) block(d int) string {
-	n := g.n("blockn", 0, 3)
+	n := g.n("blockn", 0, 2)
 	if n == 0 {
 		return "{\n}"
 	}
@@ -371,7 +371,7 @@ func (g *pgen) stmt(d int) string {
 
 // program draws one program whose first statement has the forced kind.
 func (g *pgen) program(force string) string {
-	n := g.n("stmts", 1, 4)
+	n := g.n("stmts", 1, 3)
 	parts := make([]string, 0, n)
 	pos := g.n("forcepos", 0, n-1)
 	for i := 0; i < n; i++ {
@@ -509,4 +509,30 @@ func drawEval(rt *rapid.T) (mainText string, files map[string]string, events []E
 		events = append(events, Event{Kind: fmt.Sprintf("c13.k%d", g.n("evkind", 0, min(nsinks, 3)-1)), N: g.n("evn", 0, 5)})
 	}
 	return sb.String(), files, events, sinkIf, sinkMap
+}
+
+// terminating programs evaluated by the parsing goroutines; %d = a small number
+var hostEvalBodies = []string{
+	"a := %d\n\"v{{a + 1}}|{{len({1 : 2, 3 : a})}}\"",
+	"r := 0\nfor i in range(1, %d) {\n    r := r + i\n}\n\"r={{r}}\"",
+	"import \"hlib/h0\" as l\n\"{{l.f(%d)}}/{{l.k}}\"",
+	"m := {\"a\" : %d, \"b\" : [1, 2]}\nif m.a > 2 {\n    m.a := 0\n}\n\"{{m}}\"",
+	"f := func (x) {\n    if x > 1 {\n        return {\"k\" : x}\n    }\n    return {\"k\" : 0}\n}\nr := f(%d)\n\"{{r.k}}\"",
+	"\"{{ if %d > 2 { 1 } else { 2 } }}{{ for i in [1, 2] { x := i } }}\"",
+	// the iterator state of the two range calls is keyed by the instance ids of their runtime components
+	"r := 0\nfor a in range(1, %d) {\n    for b in range(1, 3) {\n        r := r + a * b\n    }\n}\nr",
+	"import \"hlib/h1\" as l\nx := l.f(%d)\n'{{x}} {{ {\"q\" : x} }}'",
+}
+
+func drawHostEvals(rt *rapid.T) (evals []string, files map[string]string) {
+	g := &pgen{rt: rt}
+	files = map[string]string{}
+	for i := 0; i < 2; i++ {
+		files[fmt.Sprintf("hlib/h%d", i)] = fmt.Sprintf(g.pick("hlibbody", libBodies), g.n("libk1", 0, 9), g.n("libk2", 0, 9))
+	}
+	n := g.n("nevals", 1, 4)
+	for i := 0; i < n; i++ {
+		evals = append(evals, fmt.Sprintf(g.pick("evalbody", hostEvalBodies), g.n("evalk", 1, 5)))
+	}
+	return evals, files
 }
